@@ -9,6 +9,7 @@ From Coq Require Import ZArith Floats.
 From mathcomp Require Import all_ssreflect all_algebra.
 From LS Require Import NumOps RcfOps F64Ops Kernels Preprocess Pca Pls KernelsSpec PlsSpec PlsRefine Gen_Params.
 From LS Require NipalsSpec.
+From LS Require Import PlsFit.
 Set Implicit Arguments. Unset Strict Implicit. Unset Printing Implicit Defensive.
 Import Order.TTheory GRing.Theory Num.Theory.
 Local Open Scope ring_scope.
@@ -95,9 +96,21 @@ End Refinement.
 Theorem C03_threshold_is_the_sources : QArith_base.Qeq_bool (lq lit_PLSCONV) c_PLSCONVERGENCE = true.
 Proof. by vm_compute. Qed.
 
+(* the decomposition clause for the EXECUTABLE fit, every run that returns, any number of latent variables, any data and any
+   number of inner iterations: X = sum_k t_k p_k' + X_res with the scores and x-loadings the model stores *)
+Theorem C03_executable_x_decomposition (R : rcfType) n m fuel nlv (X Y : seq (seq R)) (acc lvs : seq (lv (K := R))) Xr Yr :
+  wf n m X -> (0 < n)%N -> pls_components (ops := RcfOps R) fuel nlv X Y acc = Ok (lvs, Xr, Yr) ->
+  exists new : seq lv,
+    [/\ lvs = rev acc ++ new, size new = nlv, wf n m Xr,
+        all (fun l => (size (lv_t l) == n) && (size (lv_p l) == m)) new &
+        mx_of n m X = (\sum_(k < nlv) cv_of n (lv_t (nth (Lv [::] [::] [::] [::] [::] 0 [::] [::] 0) new k)) *m
+                                     (cv_of m (lv_p (nth (Lv [::] [::] [::] [::] [::] 0 [::] [::] 0) new k)))^T
+                      + mx_of n m Xr)%R].
+Proof. exact: pls_components_x_decomposition. Qed.
 Print Assumptions C03_scores_orthogonal.
 Print Assumptions C03_weights_orthogonal.
 Print Assumptions C03_x_decomposition.
+Print Assumptions C03_executable_x_decomposition.
 Print Assumptions C03_pw_upper.
 Print Assumptions C03_y_deflation_is_projection.
 Print Assumptions C03_residual_columns.
